@@ -144,7 +144,7 @@ func genScenario(r *Rng) Scenario {
 			}
 		}
 		if ss.End == "stop" && r.Chance(1, 2) {
-			kinds := []string{"tindex-torn", "tindex-torn", "tindex-orphan", "cindex-drop", "cindex-torn", "cindex-stale", "cindex-stale"}
+			kinds := []string{"tindex-torn", "tindex-torn", "drop-window", "cindex-drop", "cindex-torn", "cindex-stale", "cindex-stale"}
 			n := r.PickInt(1, 1, 1, 2)
 			for i := 0; i < n; i++ {
 				ss.Surgery = append(ss.Surgery, Surgery{Kind: kinds[r.Intn(len(kinds))], K: r.PickInt(0, 1, 250, 500, 900, 999), Part: r.Intn(sc.NParts)})
@@ -184,7 +184,7 @@ func corpus() []Scenario {
 		{Kind: "corpus", NParts: 1, Range: [2]int64{15, 25}, Sessions: []Session{{Steps: []Step{w(0, 10, 20, 30), sy}, End: "stop", Surgery: []Surgery{{Kind: "tindex-torn", K: 999}}}}},
 		{Kind: "corpus", NParts: 1, Range: [2]int64{15, 25}, Sessions: []Session{{Steps: []Step{}, End: "stop", Surgery: []Surgery{{Kind: "tindex-torn", K: 0}}}}},
 		{Kind: "corpus", NParts: 1, Range: [2]int64{15, 25}, Sessions: []Session{{Steps: []Step{w(0, 10)}, End: "kill", Surgery: []Surgery{{Kind: "tindex-torn", K: 500}}}}},
-		{Kind: "corpus", NParts: 2, Range: [2]int64{15, 25}, Sessions: []Session{{Steps: []Step{w(0, 10, 20, 30), w(1, 5), sy}, End: "stop", Surgery: []Surgery{{Kind: "tindex-orphan", Part: 1}}}}},
+		{Kind: "corpus", NParts: 2, Range: [2]int64{15, 25}, Sessions: []Session{{Steps: []Step{w(0, 10, 20, 30), w(1, 5), sy}, End: "stop", Surgery: []Surgery{{Kind: "drop-window", Part: 1}}}}},
 		// C07_crash_pipes (C07_crash_pipes_shutdown_only_refuted): a pipe created since the last clean shutdown, SIGKILL;
 		// the server dies inside the write of the pipes save of the shutdown sequence; a pipe deleted, SIGKILL
 		{Kind: "corpus", NParts: 1, Range: [2]int64{15, 25}, Sessions: []Session{{Steps: []Step{w(0, 10, 20, 30), sy, {Op: "pipe", Name: "pa"}}, End: "kill"}}},
@@ -238,7 +238,7 @@ func gSurgery(s Surgery) string {
 	switch s.Kind {
 	case "tindex-torn":
 		return GApp("GTTorn", GNat(s.K))
-	case "tindex-orphan":
+	case "drop-window":
 		return GApp("GTOrphan", GNat(s.Part))
 	case "cindex-drop":
 		return "GCDrop"
@@ -300,7 +300,7 @@ func gObs(o Obs) string {
 
 // ---------------------------------------------------------------- main
 
-const rule = "scenarios of 1-3 sessions on one server directory (child process): writes to 1-3 partitions (timestamps increasing per partition), explicit flushes (standing for WriteFlushMs passing), pipe create/delete; every session ends by a graceful stop, by SIGKILL, or by a crash injected into the shutdown sequence (the process dies inside the write of its first saver, the pipes save, at 0..999 per mille); after a graceful stop optionally: a crash injected into the tag-index save at the end of Init (a start that dies inside the saver's write at 0..999 per mille), a record removed from tindex.dat, cindex.dat dropped / torn / replaced by the one of the previous shutdown; every start is observed (refused, or partitions + events + pipes + a RANGE probe) - except blind starts (a quarter of the later sessions: the first request is a write, usually after the time-index snapshot was lost); 6 % of the steps truncate a partition away completely; 1 scenario in 12 has a forwarding pipe from partition 0 to its destination partition instead (graceful stops only, rounds of flush / write / wait until the pipe has caught up); at the end of every session the RANGE probe is compared with the plain read. Non-trivial: at least one session wrote events that were flushed, and the scenario has a crash, a surgery or an unflushed acknowledged write at a graceful stop."
+const rule = "scenarios of 1-3 sessions on one server directory (child process): writes to 1-3 partitions (timestamps increasing per partition), explicit flushes (standing for WriteFlushMs passing), pipe create/delete; every session ends by a graceful stop, by SIGKILL, or by a crash injected into the shutdown sequence (the process dies inside the write of its first saver, the pipes save, at 0..999 per mille); after a graceful stop optionally: a crash injected into the tag-index save at the end of Init (a start that dies inside the saver's write at 0..999 per mille), the directory of a partition removed (a crash between the two effects of a partition removal), cindex.dat dropped / torn / replaced by the one of the previous shutdown; every start is observed (refused, or partitions + events + pipes + a RANGE probe) - except blind starts (a quarter of the later sessions: the first request is a write, usually after the time-index snapshot was lost); 6 % of the steps truncate a partition away completely; 1 scenario in 12 has a forwarding pipe from partition 0 to its destination partition instead (graceful stops only, rounds of flush / write / wait until the pipe has caught up); at the end of every session the RANGE probe is compared with the plain read. Non-trivial: at least one session wrote events that were flushed, and the scenario has a crash, a surgery or an unflushed acknowledged write at a graceful stop."
 
 func run(c *Ctx) error {
 	var scs []Scenario
@@ -349,6 +349,12 @@ func mkCase(sc *Scenario, stream string) (*Case, error) {
 		os[i] = gObs(o)
 	}
 	viol, flushedAny, hazard, skip := oracle(sc, tr)
+	var drops []string
+	for _, o := range tr.drops {
+		if o != "unseen" {
+			drops = append(drops, GBool(o == "data-first"))
+		}
+	}
 	var tags []string
 	for _, s := range sc.Sessions {
 		tags = append(tags, "end:"+s.End)
@@ -366,6 +372,9 @@ func mkCase(sc *Scenario, stream string) (*Case, error) {
 	}
 	tags = append(tags, "kind:"+sc.Kind)
 	tags = append(tags, fmt.Sprintf("sessions:%d", len(sc.Sessions)))
+	for _, o := range tr.drops {
+		tags = append(tags, "drop-order:"+o)
+	}
 	for _, how := range tr.inject {
 		if strings.HasPrefix(how, "round:") {
 			tags = append(tags, how)
@@ -377,7 +386,7 @@ func mkCase(sc *Scenario, stream string) (*Case, error) {
 		tags = append(tags, "refused-to-start")
 	}
 	return &Case{
-		Coq:        GApp("KScenario", GNat(sc.NParts), GZ(sc.Range[0]), GZ(sc.Range[1]), GList(ss), GList(os), GListNat(skip)),
+		Coq:        GApp("KScenario", GNat(sc.NParts), GZ(sc.Range[0]), GZ(sc.Range[1]), GList(ss), GList(os), GListNat(skip), GList(drops)),
 		Replay:     sc,
 		NonTrivial: flushedAny && hazard,
 		Oracle:     viol,
